@@ -24,7 +24,11 @@ func tiered(quick, thorough int) func(string) int {
 // progFor draws the program shared by the K consecutive case indices idx/K; variant selects the
 // generator configuration: 0 plain, 1 spec-level --, 2 environment-backed options, 3 both
 func progFor(seed int64, tag string, pi int, cfg gen.Cfg) *Prog {
-	r := rand.New(rand.NewSource(core.Mix(seed, pi) ^ int64(len(tag))*7919))
+	h := int64(0)
+	for _, ch := range tag {
+		h = h*131 + int64(ch)
+	}
+	r := rand.New(rand.NewSource(core.Mix(seed+h*1000003, pi)))
 	return gen.GenProg(r, cfg)
 }
 
